@@ -509,13 +509,34 @@ var _ = math.MaxUint32
 // leaf upwards; side 0 = sibling on the left. It returns the proven value, or an error when the path
 // does not lead to root.
 func RefVerifyPath(path []byte, root common.Uint256) ([]byte, error) {
-	src := common.NewZeroCopySource(path)
-	value, eof := src.NextVarBytes()
-	if eof {
+	// own var-uint / var-bytes reader (1, 3, 5 or 9 byte length prefix, little endian)
+	if len(path) == 0 {
+		return nil, fmt.Errorf("path: empty")
+	}
+	pl, n := 1, uint64(path[0])
+	switch path[0] {
+	case 0xFD:
+		pl = 3
+	case 0xFE:
+		pl = 5
+	case 0xFF:
+		pl = 9
+	}
+	if pl > 1 {
+		if len(path) < pl {
+			return nil, fmt.Errorf("path: length prefix truncated")
+		}
+		n = 0
+		for i := pl - 1; i >= 1; i-- {
+			n = n<<8 | uint64(path[i])
+		}
+	}
+	if n > uint64(len(path)-pl) {
 		return nil, fmt.Errorf("path: value truncated")
 	}
+	value := path[pl : pl+int(n)]
 	h := sha256.Sum256(append([]byte{0}, value...))
-	rest := path[src.Pos():]
+	rest := path[pl+int(n):]
 	if len(rest)%33 != 0 {
 		return nil, fmt.Errorf("path: %d trailing bytes are not (side, hash) pairs", len(rest))
 	}
